@@ -320,14 +320,15 @@ func (r *router) Routes(routePath, methods string, handlers ...Handler) *Route {
 	}
 
 	// Collect methods from handlers if they are strings
-	for i, h := range handlers {
-		m, ok := h.(string)
+	i := 0
+	for ; i < len(handlers); i++ {
+		m, ok := handlers[i].(string)
 		if !ok {
-			handlers = handlers[i:]
 			break
 		}
 		ms = append(ms, m)
 	}
+	handlers = handlers[i:]
 
 	var route *Route
 	for _, m := range ms {
